@@ -14,6 +14,10 @@ in source order inside the function.
 """
 import json, re, subprocess, os, sys, hashlib
 
+# The tree under verification.  /repo unless VERIF_REPO names a scratch worktree (used only by tools/seeded_sweep.sh to
+# run several seeded changes side by side; every command registered in MANIFEST.json runs without it).
+REPO = os.environ.get('VERIF_REPO', '/repo').rstrip('/')
+
 
 class Unsupported(Exception):
     pass
@@ -39,7 +43,7 @@ def ast_dump(src, filt, workdir, extra_args=()):
     os.makedirs(workdir, exist_ok=True)
     tag = hashlib.sha1((src + '|' + filt + '|' + ' '.join(extra_args)).encode()).hexdigest()[:12]
     out = os.path.join(workdir, 'ast_%s.json' % tag)
-    cmd = ['clang++-14', '-std=c++20', '-I/repo/src', '-I/repo/src/third_party', '-fsyntax-only', '-w',
+    cmd = ['clang++-14', '-std=c++20', '-I' + REPO + '/src', '-I' + REPO + '/src/third_party', '-fsyntax-only', '-w',
            '-Xclang', '-ast-dump=json', '-Xclang', '-ast-dump-filter=' + filt] + list(extra_args) + [src]
     with open(out, 'w') as f:
         r = subprocess.run(cmd, stdout=f, stderr=subprocess.PIPE, text=True)
@@ -357,7 +361,7 @@ class Lower:
         try:
             with open(os.path.join(d, 'g.cpp'), 'w') as f:
                 f.write('#include <cstdio>\n#include "%s"\nint main() { std::printf("%%.17g", (double)(%s::%s)); return 0; }\n' % (src, ns, name))
-            r = subprocess.run(['g++', '-std=c++20', '-w', '-O0', '-I/repo/src', '-I/repo/src/third_party', os.path.join(d, 'g.cpp'), '-o', os.path.join(d, 'g')] + list(getattr(self, 'unit_libs', [])),
+            r = subprocess.run(['g++', '-std=c++20', '-w', '-O0', '-I' + REPO + '/src', '-I' + REPO + '/src/third_party', os.path.join(d, 'g.cpp'), '-o', os.path.join(d, 'g')] + list(getattr(self, 'unit_libs', [])),
                                capture_output=True, text=True, timeout=300)
             if r.returncode != 0:
                 raise Unsupported('global constant %s: cannot be evaluated (%s)' % (name, r.stderr[-300:]))
